@@ -35,11 +35,14 @@ Definition check_case (c : case) : Z :=
       let m := [ p2pkh_address C A sha256 hash160 nd testnet; p2wpkh_address C A sha256 hash160 nd testnet;
                  p2sh_p2wpkh_address C A sha256 hash160 nd testnet; p2wsh_address C sha256 nd testnet;
                  p2sh_p2wsh_address C A sha256 hash160 nd testnet;
-                 bind (public_key C nd) (fun K => pk_address C A sha256 hash160 K false testnet 0) ] in
+                 bind (public_key C nd) (fun K => pk_address C A sha256 hash160 K false testnet 0);
+                 (* the same PublicKey object reused: uncompressed P2PKH asked after the compressed forms, and the reverse *)
+                 bind (public_key C nd) (fun K => pk_address C A sha256 hash160 K false testnet 0);
+                 bind (public_key C nd) (fun K => pk_address C A sha256 hash160 K true testnet 0) ] in
       let agrees := (List.length m =? List.length ob)%nat && forallb (fun p => beq_oaddr (fst p) (snd p)) (combine m ob) in
       let prop :=
         match public_key C nd, ob with
-        | Ok K, [a1; a2; a3; a4; a5; a6] =>
+        | Ok K, [a1; a2; a3; a4; a5; a6; a7; a8] =>
             let secc := ser_c C K in let hrp := segwit_hrp testnet in
             beq_res beq_bytes (b58_payload sha256 a1) (Ok (p2pkh_payload hash160 secc testnet))
             && (match segwit_prog hrp a2 with Some (v, p) => (v =? 0) && beq_bytes p (hash160 secc) | None => false end)
@@ -47,6 +50,8 @@ Definition check_case (c : case) : Z :=
             && (match segwit_prog hrp a4 with Some (v, p) => (v =? 0) && beq_bytes p (p2wsh_program sha256 secc) | None => false end)
             && beq_res beq_bytes (b58_payload sha256 a5) (Ok (p2sh_p2wsh_payload sha256 hash160 secc testnet))
             && beq_res beq_bytes (b58_payload sha256 a6) (Ok (p2pkh_payload hash160 (ser_u C K) testnet))
+            && beq_res beq_bytes (b58_payload sha256 a7) (Ok (p2pkh_payload hash160 (ser_u C K) testnet))
+            && beq_res beq_bytes (b58_payload sha256 a8) (Ok (p2pkh_payload hash160 secc testnet))
         | Ok _, _ => false
         | Err, _ => true
         end in
